@@ -511,7 +511,7 @@ OpOut encrypt(const bytes &plain, const bytes &key, const bytes &seed, int cmode
   in.fail_once = pc.in_fail_once;
   out.wfail_at = pc.out_fail_at;
   out.logging = pc.want_log;
-  FILE *fi = mf_open(&in, "rb");
+  FILE *fi = pc.null_input ? NULL : mf_open(&in, "rb");
   FILE *fo = mf_open(&out, "wb+", pc.outbuf);
   bytes k = key;
   k.resize(16);
@@ -536,7 +536,7 @@ OpOut decrypt(const bytes &file, const bytes &key, const PipeCfg &pc)
   in.fail_once = pc.in_fail_once;
   out.wfail_at = pc.out_fail_at;
   out.logging = pc.want_log;
-  FILE *fi = mf_open(&in, "rb");
+  FILE *fi = pc.null_input ? NULL : mf_open(&in, "rb");
   FILE *fo = mf_open(&out, "wb+", pc.outbuf);
   bytes k = key;
   k.resize(16);
@@ -557,7 +557,7 @@ OpOut verify(const bytes &file, const bytes &key, const PipeCfg &pc, bool with_o
   in.d = file;
   in.fail_at = pc.in_fail_at;
   in.fail_once = pc.in_fail_once;
-  FILE *fi = mf_open(&in, "rb");
+  FILE *fi = pc.null_input ? NULL : mf_open(&in, "rb");
   FILE *fo = with_out ? mf_open(&out, "wb+", pc.outbuf) : NULL;
   bytes k = key;
   k.resize(16);
@@ -839,7 +839,7 @@ static void set_refill(int units)
     filebuffer64::HBUF_SZ = (u32_t)units;
   }
 }
-bytes hash_filebuf(int alg, const bytes &file, size_t pos, int refill_units, const bytes *prefix64)
+bytes hash_filebuf(int alg, const bytes &file, size_t pos, int refill_units, const bytes *prefix64, const bytes *decoy)
 {
   set_refill(refill_units);
   MemFile in;
@@ -852,8 +852,23 @@ bytes hash_filebuf(int alg, const bytes &file, size_t pos, int refill_units, con
   if (prefix64)
     memcpy(pre, prefix64->data(), 64);
   filebuffer64 *fb = new filebuffer64(fi, [](std::string, size_t) {}, prefix64 ? pre : NULL);
+  // a second hashing buffer over another file is alive at the same time (constructed after, destroyed after)
+  MemFile in2;
+  FILE *fi2 = NULL;
+  filebuffer64 *fb2 = NULL;
+  if (decoy)
+  {
+    in2.d = *decoy;
+    fi2 = mf_open(&in2, "rb");
+    fb2 = new filebuffer64(fi2, [](std::string, size_t) {}, NULL);
+  }
   h->getFileHash(fb, out.data());
   delete fb;
+  if (fb2)
+  {
+    delete fb2;
+    fclose(fi2);
+  }
   delete h;
   fclose(fi);
   return out;
@@ -1003,7 +1018,7 @@ bytes hmac_write(int hmode, const bytes &key, const bytes &file, size_t hash_mar
 // AES, tables, modes
 // `off` (0..15): address residue of the block handed to the library (the pipeline's own blocks are 16-aligned;
 // an API caller's need not be). The bytes around the block are canaries: the call must not touch them.
-static const char *g_canary_msg = nullptr;
+static thread_local const char *g_canary_msg = nullptr;
 const char *canary_report()
 {
   const char *m = g_canary_msg;
